@@ -12,7 +12,8 @@ RULE = ("directory trees of 1-8 conventional compilation units (classes and inte
         "methods with bodies, annotations with arguments, generic and array types), Maven and flat layouts, "
         "main / test / ignored / testData / non-Java files, random layouts from one token per line to a whole class "
         "on one line; non-trivial = at least one selected unit with a method; distinct = distinct input"
-        "; every other tree is analysed under the name DIR/. (the walk root is then called '.'), 15% of the units have Windows line ends, trees hold a testData-named source file and sources under dot-directories")
+        "; every other tree is analysed under the name DIR/. (the walk root is then called '.'), 15% of the units have Windows line ends, trees hold a testData-named source file and sources under dot-directories"
+        '; every third project is analysed after ANOTHER tree (same simple class names, own package) in the same process; two trees in five from inside the project (`-p .`)')
 TRUSTED_BASE = ["modelled, not verified: the ANTLR Java lexer/parser/tree walker (the listener callbacks are modelled over "
                 "facts the generator derives from its abstract syntax), filepath.Walk order and go-gitignore matching "
                 "(supplied by the generator), Go map iteration"]
